@@ -150,6 +150,12 @@ def cases(draw, tier="quick"):
         tailwin = (draw(st.sampled_from([1, 1, 2])), draw(st.sampled_from([2, 18, 18, 40])), draw(st.floats(0, 1)), draw(st.integers(0, 511)))
         ar["end_marker"] = True
         damage = damage + [("trunc", 1.0 - draw(st.sampled_from([1e-9, 1e-6, 1e-5])), draw(st.integers(0, 255))), ("flip", draw(st.floats(0.05, 0.95)), draw(st.integers(1, 255)))]
+    # an uncompressed archive in the old V7 dialect (no "ustar" magic) whose first bytes - the first member's name - look like the magic of a compressor
+    if draw(st.sampled_from([0] * 11 + [1])):
+        nm = draw(st.sampled_from([b"BZh91AY&notes", b"BZhou.txt", b"\x1f\x8b\x08.bin", b"\xfd7zXZ", b"\x28\xb5\x2f\xfdz"]))
+        ar["entries"].insert(0, dict(name=nm, type="file", mode=0o644, uid=0, gid=0, mtime=5, xattrs={}, data=b"v7 member\n" * draw(st.integers(0, 60)),
+                                     enc=dict(fmt="v7", num="octal", ostyle=0)))
+        ar["global_pax"] = False
     return dict(archive=ar, codec=codec, level=level, splits=splits, trailing=trailing, chunk=chunk, damage=damage, opts=o, s2t_codec=s2t_codec, tailwin=tailwin,
                 empties=empties, short_reads=short_reads, s2t_pad=s2t_pad, s2t_mult=draw(st.sampled_from([1, 1, 2])), s2t_kind=draw(st.sampled_from(["rand", "text"])))
 
@@ -228,6 +234,15 @@ def check_case(case, opts):
     with Scratch("c15") as sc:
         ref = os.path.join(sc, "ref.sqfs")
         r0 = c04.run_t2s(plain, o, ref)
+        v7magic = bool(ents) and ents[0].get("enc", {}).get("fmt") == "v7" and ents[0]["name"][:3] in (b"BZh", b"\x1f\x8b\x08", b"\xfd7z", b"\x28\xb5\x2f")
+        if v7magic:
+            classes.append("v7_first_name_looks_like_a_compressor_magic")
+        if (r0.rc != 0 and not r0.timeout and not r0.sanitizer()) and v7magic:
+            # transparency in the other direction: the same archive wrapped must then be refused as well
+            rw = c04.run_t2s(compress(codec, plain, case["level"]), o, os.path.join(sc, "w.sqfs"))
+            if rw.rc == 0:
+                raise Violation("the plain archive is refused (%s) but the same archive wrapped in %s is converted" % (r0.err[-160:].decode(errors="replace").strip(), codec),
+                                None, sig="plain-refused-wrapped-accepted")
         if r0.rc != 0 or r0.timeout or r0.sanitizer():
             raise Inconclusive("plain archive refused (C04's business)")
         refimg = open(ref, "rb").read()
